@@ -80,6 +80,28 @@ func observeAll(rec *ParseRec) {
 		}
 		return s, len(ps), err
 	})
+	// the same two calls once more
+	obs["sql2"] = guard(func() (string, int, error) {
+		var s string
+		var err error
+		if df != "" {
+			s, err = lucene.ToPostgres(q, lucene.WithDefaultField(df))
+		} else {
+			s, err = lucene.ToPostgres(q)
+		}
+		return s, len(s), err
+	})
+	obs["sqlp2"] = guard(func() (string, int, error) {
+		var s string
+		var ps []any
+		var err error
+		if df != "" {
+			s, ps, err = lucene.ToParameterizedPostgres(q, lucene.WithDefaultField(df))
+		} else {
+			s, ps, err = lucene.ToParameterizedPostgres(q)
+		}
+		return s, len(ps), err
+	})
 	if e := rec.expr; e != nil {
 		obs["str"] = guard(func() (string, int, error) { s := e.String(); return s, len(s), nil })
 		obs["gostr"] = guard(func() (string, int, error) { s := fmt.Sprintf("%#v", e); return s, len(s), nil })
